@@ -11,6 +11,7 @@ import Sigverif.Model.Support
 import Sigverif.Model.Eq
 import Sigverif.Model.Cleanup
 import Sigverif.Model.Cache
+import Sigverif.Model.Visitor
 namespace SV.Proto
 
 def splitNE (s : String) (sep : String) : List String :=
@@ -173,6 +174,117 @@ def parseCOp (s : String) : Option COp :=
 
 def sortNats (l : List Nat) : List Nat := (l.toArray.qsort (· < ·)).toList
 
+/-! ### trees: prefix token stream (see harness/treeser.py) -/
+
+def takeNats : Nat → List String → Option (List Nat × List String)
+  | 0, toks => some ([], toks)
+  | n + 1, t :: toks => do
+    let x ← t.toNat?
+    let (xs, rest) ← takeNats n toks
+    some (x :: xs, rest)
+  | _ + 1, [] => none
+
+def parseCtx : String → Option Ctx
+  | "l" => some .load | "s" => some .store | "d" => some .del | _ => none
+
+mutual
+  def parseTree : Nat → List String → Option (Tree × List String)
+    | 0, _ => none
+    | fuel + 1, toks =>
+      match toks with
+      | "N" :: id :: ctx :: rest => do some (.name (← id.toNat?) (← parseCtx ctx), rest)
+      | "A" :: rest => do
+        let (v, rest) ← parseTree fuel rest
+        match rest with
+        | a :: rest => some (.attr v (← a.toNat?), rest)
+        | [] => none
+      | "C" :: rest => do
+        let (f, rest) ← parseTree fuel rest
+        match rest with
+        | n :: rest =>
+          let (as, rest) ← parseArgs fuel (← n.toNat?) rest
+          match rest with
+          | m :: rest =>
+            let (ks, rest) ← parseKws fuel (← m.toNat?) rest
+            some (.call f as ks, rest)
+          | [] => none
+        | [] => none
+      | "F" :: n1 :: rest => do
+        let (po, rest) ← takeNats (← n1.toNat?) rest
+        match rest with
+        | n2 :: rest =>
+          let (args, rest) ← takeNats (← n2.toNat?) rest
+          match rest with
+          | n3 :: rest =>
+            let (kwo, rest) ← takeNats (← n3.toNat?) rest
+            match rest with
+            | va :: vk :: nb :: rest =>
+              let (body, rest) ← parseTrees fuel (← nb.toNat?) rest
+              some (.fdef po args kwo (← optNat va) (← optNat vk) body, rest)
+            | _ => none
+          | [] => none
+        | [] => none
+      | "G" :: n :: rest => do
+        let (ns, rest) ← takeNats (← n.toNat?) rest
+        some (.nonloc ns, rest)
+      | "O" :: n :: rest => do
+        let (ch, rest) ← parseTrees fuel (← n.toNat?) rest
+        some (.other ch, rest)
+      | _ => none
+  def parseTrees : Nat → Nat → List String → Option (TreeList × List String)
+    | 0, _, _ => none
+    | _ + 1, 0, toks => some (.nil, toks)
+    | fuel + 1, n + 1, toks => do
+      let (t, rest) ← parseTree fuel toks
+      let (ts, rest) ← parseTrees fuel n rest
+      some (.cons t ts, rest)
+  def parseArgs : Nat → Nat → List String → Option (ArgList × List String)
+    | 0, _, _ => none
+    | _ + 1, 0, toks => some (.nil, toks)
+    | fuel + 1, n + 1, toks =>
+      match toks with
+      | "P" :: rest => do
+        let (t, rest) ← parseTree fuel rest
+        let (ts, rest) ← parseArgs fuel n rest
+        some (.plain t ts, rest)
+      | "S" :: rest => do
+        let (t, rest) ← parseTree fuel rest
+        let (ts, rest) ← parseArgs fuel n rest
+        some (.starred t ts, rest)
+      | _ => none
+  def parseKws : Nat → Nat → List String → Option (KwList × List String)
+    | 0, _, _ => none
+    | _ + 1, 0, toks => some (.nil, toks)
+    | fuel + 1, n + 1, toks =>
+      match toks with
+      | "K" :: name :: rest => do
+        let (t, rest) ← parseTree fuel rest
+        let (ts, rest) ← parseKws fuel n rest
+        some (.kw (← name.toNat?) t ts, rest)
+      | "D" :: rest => do
+        let (t, rest) ← parseTree fuel rest
+        let (ts, rest) ← parseKws fuel n rest
+        some (.dstar t ts, rest)
+      | _ => none
+end
+
+def showRM : RM → String
+  | .unknown => "U"
+  | .arg n _ => s!"R{n}"
+  | .nm n => s!"M{n}"
+  | .attr v a => s!"A({showRM v}.{a})"
+
+def showOptRM : Option RM → String
+  | none => "-"
+  | some r => showRM r
+
+def b01 (b : Bool) : String := if b then "1" else "0"
+
+def showCallRec (c : CallRec) : String :=
+  let args := showList (c.args.map showRM) ","
+  let kws := showList (c.kwargs.map (fun e => s!"{e.1}={showRM e.2}")) ","
+  s!"{showRM c.wrapped}|{args}|{kws}|{showOptRM c.varargs}|{showOptRM c.varkwargs}|{b01 c.useVa}{b01 c.useVk}{b01 c.hideA}{b01 c.hideK}"
+
 /-- one request line → one answer line -/
 def handle (line : String) : String :=
   let toks := (line.splitOn " ").filter (· ≠ "")
@@ -267,6 +379,12 @@ def handle (line : String) : String :=
       let os ← (splitNE ops ",").mapM parseCOp
       let st := (crun kind os).collect kind
       some s!"ok {showNatList (sortNats (st.alive kind).eraseDups)}"
+    | "visit" :: rest => do
+      let (t, rest') ← parseTree (rest.length + 1) rest
+      if rest' ≠ [] then none else
+      some (match runVisitor t with
+        | .ok cs => s!"ok {cs.length} " ++ showList (cs.map showCallRec) ";"
+        | .error e => "err " ++ showErr e)
     | "makeup" :: ex :: p :: [] => do
       let cs := makeUpCallsigs (← parseParams p) (← parseNats ex ".")
       let strs := cs.map (fun c => s!"{showNatList c.1}|{showNatList ((c.2.toArray.qsort (· < ·)).toList)}")
